@@ -17,11 +17,12 @@ int tool_main(int argc, char *argv[]);
 
 /* jwt-verify: main never returns (every path ends in exit()); the status handed to exit()
  * is judged by exit()'s CHECKED precondition in stubs/tools_env.c. */
+extern jwt_alg_t g_user_alg;	/* the algorithm named last with -a (stubs/tools_env.c) */
 int contract_C20_jwt_verify_main(int argc, char *argv[])
 __CPROVER_requires(argc >= 1 && argc <= 0x1000000)
 __CPROVER_requires(__CPROVER_is_fresh(argv, ((size_t)argc + 1) * sizeof(char *)))
-__CPROVER_requires(g_tok_calls == 0 && g_tok_bad == 0 && optind == 1)
-__CPROVER_assigns(pipe_cmd, optind, optarg, g_tok_calls, g_tok_bad, g_exit_status8, g_getopt_calls, g_tok_last)
+__CPROVER_requires(g_tok_calls == 0 && g_tok_bad == 0 && optind == 1 && g_user_alg == JWT_ALG_NONE)
+__CPROVER_assigns(pipe_cmd, optind, optarg, g_tok_calls, g_tok_bad, g_exit_status8, g_getopt_calls, g_tok_last, g_user_alg)
 __CPROVER_ensures(0 == 1)
 ;
 
@@ -32,8 +33,8 @@ extern unsigned g_lines, g_line_len; extern const char *g_line_buf; extern char 
 int contract_C20_jwt_verify_main_stdin(int argc, char *argv[])
 __CPROVER_requires(argc >= 1 && argc <= 2)
 __CPROVER_requires(__CPROVER_is_fresh(argv, ((size_t)argc + 1) * sizeof(char *)))
-__CPROVER_requires(g_tok_calls == 0 && g_tok_bad == 0 && optind == 1 && g_lines == 0 && g_line_buf == NULL && g_getopt_calls == 0)
-__CPROVER_assigns(pipe_cmd, optind, optarg, g_tok_calls, g_tok_bad, g_exit_status8, g_getopt_calls, g_tok_last, g_lines, g_line_buf, g_line_len, __CPROVER_object_whole(g_line_copy))
+__CPROVER_requires(g_tok_calls == 0 && g_tok_bad == 0 && optind == 1 && g_lines == 0 && g_line_buf == NULL && g_getopt_calls == 0 && g_user_alg == JWT_ALG_NONE)
+__CPROVER_assigns(pipe_cmd, optind, optarg, g_tok_calls, g_tok_bad, g_exit_status8, g_getopt_calls, g_tok_last, g_user_alg, g_lines, g_line_buf, g_line_len, __CPROVER_object_whole(g_line_copy))
 __CPROVER_ensures(0 == 1)
 ;
 
